@@ -173,6 +173,22 @@ structure Parsed where
 /-- consumed prefix -/
 def consumed (b rest : Bytes) : Bytes := b.take (b.length - rest.length)
 
+/-- closing a script item: the array must hold exactly the elements used (definite) or end with the
+    break byte (indefinite); the stored span is everything consumed -/
+def finish (b : Bytes) (arg : Arg) (body : Option (Script × List Bytes × Bytes × Nat)) :
+    Option (Parsed × Bytes) :=
+  match body with
+  | none => none
+  | some (s, sp, r, used) =>
+    match arg with
+    | .val n =>
+      if n = used then some ({ script := s, spans := consumed b r :: sp }, r) else none
+    | .indef =>
+      match r with
+      | x :: r' =>
+        if x = 0xff then some ({ script := s, spans := consumed b r' :: sp }, r') else none
+      | [] => none
+
 mutual
 /-- one script item; fuel bounds the nesting/length (every call consumes ≥ 1 byte) -/
 def parseScript : Nat → Bytes → Option (Parsed × Bytes)
@@ -207,17 +223,7 @@ def parseScript : Nat → Bytes → Option (Parsed × Bytes)
               | some (t, r3) => (readBytes r3).map (fun (h, r) => (Script.guard t (fixN 28 h), [], r, 2))
             | _ => none
           else none
-        match body with
-        | none => none
-        | some (s, sp, r, used) =>
-          match arg with
-          | .val n =>
-            if n = used then some ({ script := s, spans := consumed b r :: sp }, r) else none
-          | .indef =>
-            match r with
-            | x :: r' =>
-              if x = 0xff then some ({ script := s, spans := consumed b r' :: sp }, r') else none
-            | [] => none
+        finish b arg body
     | _ => none
 /-- an array of scripts (definite or indefinite): scripts, their spans, rest -/
 def parseList : Nat → Bytes → Option (List Script × List Bytes × Bytes)
@@ -262,6 +268,24 @@ def ctorName (id : Nat) : Option String :=
   else if id = 5 then some "NativeScriptInvalidHereafter"
   else if id = 6 then some "NativeScriptRequireGuard"
   else none
+
+/-- the fields (name and Go type, in declaration order, after the embedded `cbor.StructAsArray`)
+    that `parseScript` reads for a type id: the decoder fills them by position -/
+def fieldLayout (id : Nat) : Option (List String) :=
+  if id = 0 then some ["Type uint", "Hash []byte"]
+  else if id = 1 ∨ id = 2 then some ["Type uint", "Scripts []NativeScript"]
+  else if id = 3 then some ["Type uint", "N uint", "Scripts []NativeScript"]
+  else if id = 4 ∨ id = 5 then some ["Type uint", "Slot uint64"]
+  else if id = 6 then some ["Type uint", "Credential Credential"]
+  else none
+
+/-- the bytes `DecodeStoreCbor` holds for the script itself (`s.Cbor()`) -/
+def storedBytes (p : Parsed) : Bytes := p.spans.headD []
+
+/-- `NativeScript.Hash`: the digest of the script-type prefix 0x00 followed by the STORED bytes
+    (`Blake2b224Hash(slices.Concat([]byte{ScriptRefTypeNativeScript}, s.Cbor()))`); the digest is
+    a primitive -/
+def hashOf {D : Type} (h224 : Bytes → D) (p : Parsed) : D := h224 (0x00 :: storedBytes p)
 
 /-- a whole byte string as one script (what `NativeScript.UnmarshalCBOR` is handed) -/
 def decode (b : Bytes) : Option Parsed :=
